@@ -67,7 +67,7 @@ func c07(r *Report) {
 			if wgCall(d, "Done") {
 				done = true
 			}
-			if calleeName(d) == "(net.Conn).Close" && d.Call.Value == ssa.Value(loop.Params[1]) {
+			if calleeName(d) == "(net.Conn).Close" && isParamVal(d.Call.Value, loop.Params[1]) {
 				closed = true
 			}
 		}
@@ -81,7 +81,7 @@ func c07(r *Report) {
 				if wgCall(d, "Done") {
 					dDone = d
 				}
-				if calleeName(d) == "(net.Conn).Close" && d.Call.Value == ssa.Value(loop.Params[1]) {
+				if calleeName(d) == "(net.Conn).Close" && isParamVal(d.Call.Value, loop.Params[1]) {
 					dClose = d
 				}
 			}
@@ -329,6 +329,42 @@ func c07(r *Report) {
 				}
 			}
 			r.Decide("callgraph", fnName(f)+": does not wait on p.closing", n == 0, "no select / receive on the closing channel", "the exchange can be interrupted by shutdown between modifier and response", f.Pos())
+		}
+		// nothing else in the core reacts to the closing channel: the request
+		// reader (between exchanges) and the Closing() poll are the only
+		// watchers. A watcher that, say, sets a deadline on the connection when
+		// shutdown starts cuts the exchange that is in flight on it.
+		watchers := 0
+		for _, f := range w.Funcs("") {
+			allowed := fnName(f) == "(*M.Proxy).readRequest" || fnName(f) == "(*M.Proxy).Closing"
+			for _, in := range instrs(f) {
+				var ch ssa.Value
+				switch x := in.(type) {
+				case *ssa.Select:
+					for _, st := range x.States {
+						if st.Dir == types.RecvOnly {
+							if ld, ok := resolveFree(st.Chan).(*ssa.UnOp); ok && isFieldRef(ld.X, M, "Proxy", "closing") {
+								ch = st.Chan
+							}
+						}
+					}
+				case *ssa.UnOp:
+					if x.Op == token.ARROW {
+						if ld, ok := resolveFree(x.X).(*ssa.UnOp); ok && isFieldRef(ld.X, M, "Proxy", "closing") {
+							ch = x.X
+						}
+					}
+				}
+				if ch == nil {
+					continue
+				}
+				watchers++
+				r.Touch(f)
+				r.Decide("callgraph", fnName(f)+" may watch p.closing", allowed, "the request reader / the Closing() poll", "a function other than the request reader waits for shutdown ("+fnName(f)+"): whatever it does when shutdown starts (deadline, close, cancel) hits exchanges whose request modifier has already run", in.Pos())
+			}
+		}
+		if watchers < 2 {
+			r.Undecided("watchers of p.closing", fmt.Sprintf("UNRESOLVED: %d found, the reader's select and the Closing() poll expected", watchers))
 		}
 		// a Closing() test after the request modifier must not lead to an exit that skips the write
 		var mod ssa.Instruction
